@@ -481,13 +481,19 @@ func runC09(r *core.Run) {
 
 	pool := c09Types(t)
 	ntasks := t.Range(2, 6)
+	maxOps := 4
+	if r.Tier == "thorough" && t.Chance(1, 3) {
+		// deeper bounds in the thorough tier: more simulated goroutines, longer scripts
+		ntasks = t.Range(2, simhook.MaxTasks)
+		maxOps = 7
+	}
 	tasks := make([][]*c09Op, ntasks)
 	// the first type of the pool is "hot": every task is likely to use it first
 	hot := pool[t.Intn(len(pool))]
 	nops := 0
 	usedBy := map[*simType]map[int]bool{}
 	for i := range tasks {
-		k := t.Range(1, 4)
+		k := t.Range(1, maxOps)
 		for j := 0; j < k; j++ {
 			ty := pool[t.Intn(len(pool))]
 			if j == 0 && t.Chance(2, 3) {
